@@ -175,8 +175,8 @@ fn decode(bytes: &[u8]) -> Pair {
     let t1: Vec<ArgVal> = fd.args.iter().map(|t| gen_val(t, &mut d, 0)).collect();
     let mut r2 = r1.clone();
     let mut t2 = t1.clone();
-    let how_idx = d.weighted(&[3, 3, 4, 4, 2, 3, 2]);
-    let mut how = ["copy", "independent", "shift_boundary", "inject", "swap", "resplit_digits", "receiver"][how_idx];
+    let how_idx = d.weighted(&[3, 3, 4, 4, 2, 3, 2, 2]);
+    let mut how = ["copy", "independent", "shift_boundary", "inject", "swap", "resplit_digits", "receiver", "float_neighbour"][how_idx];
     match how_idx {
         0 => {}
         1 => {
@@ -285,6 +285,54 @@ fn decode(bytes: &[u8]) -> Pair {
             let ArgVal::Tup(vs) = whole else { unreachable!() };
             if fits(&vs, fd.args) {
                 t2 = vs;
+            }
+        }
+        7 => {
+            // a float leaf replaced by a neighbouring value: next representable number, a
+            // denormal next to zero, or a value differing only far behind the decimal point
+            fn nudge(v: &mut ArgVal, d: &mut Dec, done: &mut bool) {
+                match v {
+                    ArgVal::F64(b) if !*done => {
+                        let x = f64::from_bits(*b);
+                        let y = match d.choose(4) {
+                            0 => f64::from_bits(b.wrapping_add(1)),
+                            1 => if x == 0.0 { f64::MIN_POSITIVE } else { x * (1.0 + f64::EPSILON) },
+                            2 => x + 1e-17,
+                            _ => if x == 0.0 { 5e-324 } else { f64::from_bits(b.wrapping_sub(1)) },
+                        };
+                        if !y.is_nan() {
+                            *b = y.to_bits();
+                            *done = true;
+                        }
+                    }
+                    ArgVal::F32(b) if !*done => {
+                        let x = f32::from_bits(*b);
+                        let y = match d.choose(3) {
+                            0 => f32::from_bits(b.wrapping_add(1)),
+                            1 => if x == 0.0 { f32::MIN_POSITIVE } else { x * (1.0 + f32::EPSILON) },
+                            _ => if x == 0.0 { 1e-45 } else { f32::from_bits(b.wrapping_sub(1)) },
+                        };
+                        if !y.is_nan() {
+                            *b = y.to_bits();
+                            *done = true;
+                        }
+                    }
+                    ArgVal::Tup(vs) | ArgVal::Seq(vs) => {
+                        for x in vs.iter_mut() {
+                            nudge(x, d, done);
+                        }
+                    }
+                    ArgVal::Opt(Some(bx)) => nudge(bx, d, done),
+                    _ => {}
+                }
+            }
+            let mut done = false;
+            for a in t2.iter_mut() {
+                nudge(a, &mut d, &mut done);
+            }
+            if !done {
+                how = "independent";
+                t2 = fd.args.iter().map(|t| gen_val(t, &mut d, 0)).collect();
             }
         }
         _ => {
@@ -413,6 +461,7 @@ fn run_in_thread(bytes: &[u8]) -> CaseOut {
         "inject" => "how_inject",
         "swap" => "how_swap",
         "resplit_digits" => "how_resplit_digits",
+        "float_neighbour" => "how_float_neighbour",
         _ => "how_receiver",
     });
     if equal {
